@@ -48,6 +48,7 @@ def run(tier):
     runs.scripts(sim_scripts, "sim", dict(base, conc=1, maxw=3))
     runs.random("rand", 4 if q else 50, dict(base, futures=500, varycfg=1))
     runs.random("randslow", 1 if q else 10, dict(base, futures=200, varycfg=1, slow=1))
+    runs.panicking("panic", 8 if q else 40)
 
     # ---- pass C: TLC judges the traces
     good = runs.validate("C12")
